@@ -11,7 +11,7 @@ import (
 // nullability level, the list depth or a similar scalar (t, tn, tl).
 const sdl = `
 schema { query: Query }
-directive @tag(name: String, n: Int) repeatable on FIELD | FRAGMENT_SPREAD | INLINE_FRAGMENT | QUERY
+directive @tag(name: String, n: Int, l: [Int], o: In) repeatable on FIELD | FRAGMENT_SPREAD | INLINE_FRAGMENT | QUERY
 type Query {
   a: A
   is: [I]
